@@ -156,3 +156,26 @@ Definition wf_C06 (get has size sput sremove reap pgc : list sev) : bool :=
   && Nat.eqb (count_calls "gc.freeList.Put" (drop_until (SCall "gc.updateIndex") reap)) 2
   (* a cycle writes the primary's pool, applies the freelist, and only then walks the files *)
   && subseq [SCall "gc.primary.Flush"; SYield "gc.afterFreeList"; SLoop; SCall "gc.primary.Put"; SCall "gc.updateIndex"; SEndLoop] pgc.
+
+(* ---- C09 (crash clause) / C10 (interrupted at any step): the order of the file-system steps the protocol models Replace.v and
+   RemapProto.v are about ---- *)
+Definition wf_C09 (openstore translate finish : list sev) : bool :=
+  (* an interrupted replacement is completed BEFORE the index is opened *)
+  subseq [SCall "finishIndexTranslation"; SCall "index.Open"] openstore
+  (* the old index is not touched before the journal exists: the translation writes into a directory of its own, closes both indexes,
+     lists the new files, writes the journal, and only then replaces; it never moves the old files away *)
+  && subseq [SCall "os.MkdirTemp"; SCall "newIndex.Put"; SCall "newIndex.Close"; SCall "oldIndex.Close"; SCall "os.ReadDir";
+             SCall "writeTranslationJournal"; SCall "finishIndexTranslation"] translate
+  && negb (occurs (SCall "index.MoveFiles") translate) && negb (occurs (SCall "os.Rename") translate)
+  && negb (occurs (SCall "os.Remove") translate)
+  (* the replacement: read the journal; remove old files; rename new files (a missing source is not an error); remove the journal; remove
+     the new directory - in this order *)
+  && subseq [SCall "os.ReadFile"; SCall "os.ReadDir"; SLoop; SCall "os.Remove"; SEndLoop; SLoop; SCall "os.Rename"; SCall "os.IsNotExist"; SEndLoop;
+             SCall "os.Remove"; SCall "os.RemoveAll"] finish.
+Definition wf_C10 (remap : list sev) : bool :=
+  (* per file: the marker is looked at first; a marked file whose copy is still there is replaced by the copy, then skipped; an unmarked
+     file is copied, the copy is remapped and closed, the marker is created, the copy is renamed over the file; the header is
+     rewritten after all files, and the markers are removed last *)
+  subseq [SLoop; SCall "os.Stat"; SCall "os.Stat"; SCall "os.Rename"; SContinue; SCall "copyFile"; SCall "remapper.RemapOffset"; SCall "file.WriteAt";
+          SCall "file.Close"; SCall "os.Create"; SCall "os.Rename"; SEndLoop; SCall "writeHeader"; SLoop; SCall "os.Remove"; SEndLoop] remap
+  && Nat.eqb (count_calls "os.Rename" remap) 2 && Nat.eqb (count_calls "os.Create" remap) 1.
